@@ -253,6 +253,9 @@ def replay_event(prop, path, fam, key_of):
     """generic --replay: re-execute the recorded event on its configuration and re-validate it"""
     d = json.load(open(path))
     ev = d["event"]
+    if ev.get("op") == "const.audit":
+        import fam_consts
+        return fam_consts.replay(prop, path)
     run = Run(prop, "quick")
     res = [x for x in rerun(run, fam, ev) if not x.startswith("diag.")]      # diag.* labels name routes, they are never violations
     if res:
